@@ -121,6 +121,11 @@ fn permutations(n: usize, limit: usize, rng: &mut Rng) -> Vec<Vec<usize>> {
 }
 
 pub fn perm_base(seed: u64, i: usize) -> Def {
+    perm_base_opts(seed, i, true)
+}
+
+/// `rich`: also use raw callback expressions and generic enums (token-level only, not meant to type-check)
+pub fn perm_base_opts(seed: u64, i: usize, rich: bool) -> Def {
     let mut rng = Rng::derive(seed ^ 0xC18, i as u64);
     let name = format!("D{i}");
     let mut def = match i % 4 {
@@ -150,7 +155,7 @@ pub fn perm_base(seed: u64, i: usize) -> Def {
             let ret = if p.kind == PatKind::Skip { CbRet::SkUnit } else { CbRet::Unit };
             p.cb = Some(Cb { ret, inline: false, bump: false, salt: 0, target: p.variant });
             p.cb_positional = rng.chance(1, 3);
-            if rng.chance(1, 2) {
+            if rich && rng.chance(1, 2) {
                 // inline closures whose bodies contain commas, comparison and shift operators, generics
                 p.cb_text = Some(rng.pick_str(&[
                     "|lex| lex.slice().len() < 3", "|lex| lex.slice().len() <= 3 || lex.span().start > 2", "|lex| (1usize << lex.slice().len()) > 8",
@@ -179,7 +184,7 @@ pub fn perm_base(seed: u64, i: usize) -> Def {
     if rng.chance(1, 3) {
         def.extra_logos_items.push("export_dir = \"target/logos-graphs\"".into());
     }
-    if rng.chance(1, 3) {
+    if rich && rng.chance(1, 3) {
         // generic enum: concrete types and the source lifetime are given by #[logos] items
         match rng.below(4) {
             0 => {
@@ -548,10 +553,10 @@ pub fn rsample_sources(seed: u64, count: usize) -> Vec<(String, String, Vec<Stri
         } else {
             match i % 3 {
                 0 => {
-                    let base = perm_base(seed, i);
+                    let base = perm_base_opts(seed, i, false);
                     (mutate_source(&base.render(), &mut rng), false)
                 }
-                1 => (perm_base(seed, i).render(), true),
+                1 => (perm_base_opts(seed, i, false).render(), true),
                 _ => {
                     let (def, _) = gen::f8_reject(&mut rng, "T");
                     (def.render(), true)
